@@ -767,7 +767,12 @@ pub fn engine_overtake(rt: &tokio::runtime::Runtime, cases: Vec<Value>, out: &mu
             .unwrap_or_default();
         let kinds_ref: Vec<&str> = kinds.iter().map(|s| s.as_str()).collect();
         let wait = Duration::from_millis(get_u64(&case, "wait_ms").unwrap_or(40));
-        hub.set_overtake(&kinds_ref, wait);
+        if get_str(&case, "delay_at") == Some("cache.enter") {
+            hub.set_overtake_cache(wait);
+        } else {
+            hub.set_overtake(&kinds_ref, wait);
+        }
+        let restart_append = case["restart_append"].as_bool().unwrap_or(false);
         let scenario = get_str(&case, "scenario").unwrap_or("task").to_string();
         let data2 = data.clone();
         let ws2 = ws.clone();
@@ -870,7 +875,8 @@ pub fn engine_overtake(rt: &tokio::runtime::Runtime, cases: Vec<Value>, out: &mu
                         .unwrap_or(Value::Null);
                     let tid = ensure["thread_id"].as_str().unwrap_or("").to_string();
                     let mut js = Vec::new();
-                    for k in 0..2 {
+                    let nmsg = if scenario == "thread3" { 3 } else { 2 };
+                    for k in 0..nmsg {
                         let client = client.clone();
                         let url = format!("{base}/threads/{tid}/messages");
                         js.push(tokio::spawn(async move {
@@ -906,6 +912,27 @@ pub fn engine_overtake(rt: &tokio::runtime::Runtime, cases: Vec<Value>, out: &mu
             std::thread::sleep(Duration::from_millis(25));
         }
         let overtaken = hub.end_overtake();
+        if restart_append {
+            // the authority restarts on the store as it is and every thread gets one more message
+            let data3 = data.clone();
+            let ws3 = ws.clone();
+            rt.block_on(async move {
+                let server = crate::srv::Server::start(data3, ws3, None, false).await;
+                let client = reqwest::Client::new();
+                if let Ok(r) = client.post(format!("{}/threads/ensure", server.base)).send().await {
+                    if let Ok(v) = r.json::<Value>().await {
+                        let tid = v["thread_id"].as_str().unwrap_or("").to_string();
+                        let _ = client
+                            .post(format!("{}/threads/{tid}/messages", server.base))
+                            .json(&json!({"content": json!({"tool": "ls", "args": {"path": "."}}).to_string()}))
+                            .send()
+                            .await;
+                    }
+                }
+                tokio::time::sleep(Duration::from_millis(400)).await;
+                server.stop().await;
+            });
+        }
         let trace: Vec<Value> = hub
             .take_trace()
             .into_iter()
